@@ -122,8 +122,10 @@ def worker_batch(args):
         "samples": [],
         "contexts": [],
         "notes": {},
+        "known": {},
     }
-    nontrivial = getattr(mod, "nontrivial", default_nontrivial)
+    known = load_known()
+    nontrivial =getattr(mod, "nontrivial", default_nontrivial)
     trace_key = getattr(mod, "trace_key", default_trace_key)
     old = signal.signal(signal.SIGALRM, _alarm)
     try:
@@ -158,7 +160,11 @@ def worker_batch(args):
             if len(out["samples"]) < 1:
                 out["samples"].append({"case": case, "outcome": _outcome(res)})
             for v in viols:
-                out["violations"].append({"violation": v, "case": case})
+                k = match_known(mod, pid, v, res, known)
+                if k is not None:
+                    out["known"][k["id"]] = out["known"].get(k["id"], 0) + 1
+                else:
+                    out["violations"].append({"violation": v, "case": case})
             if len(out["violations"]) >= 3:
                 break
     finally:
@@ -194,7 +200,7 @@ def load_known():
 def match_known(mod, pid, violation, res, known):
     preds = getattr(mod, "KNOWN_PREDICATES", {})
     for k in known:
-        if k.get("property") != pid or k.get("status", "open") != "open":
+        if (k.get("property") != pid and pid not in k.get("properties", [])) or k.get("status", "open") != "open":
             continue
         fn = preds.get(k.get("predicate"))
         if fn is None:
@@ -237,7 +243,7 @@ def _drop_each(lst):
         yield lst[:i] + lst[i + 1 :]
 
 
-def _shrink_candidates(case):
+def _shrink_candidates(case, shrink_plan=True):
     """Yield structurally smaller variants of a case (one edit each)."""
     # 1. drop whole script steps (not the first call)
     script = case.get("script", [])
@@ -275,7 +281,7 @@ def _shrink_candidates(case):
             yield c
     # 5. plan statements: drop / unwrap / shorten repeats
     for si, step in enumerate(script):
-        if step.get("do") != "call" or step.get("tag"):
+        if step.get("do") != "call" or step.get("tag") or not shrink_plan:
             continue
         for path, node_list in _walk_lists(step.get("plan", []), ("plan",)):
             for i in range(len(node_list)):
@@ -349,7 +355,7 @@ def shrink(mod, pid, case, cls, known, budget_s=60.0):
     twin_bad = _same(mod, _twin(case), cls, known, pid)
     while improved and _perf() - t0 < budget_s:
         improved = False
-        for cand in _shrink_candidates(best):
+        for cand in _shrink_candidates(best, getattr(mod, "SHRINK_PLAN", True)):
             if _perf() - t0 > budget_s:
                 break
             tried += 1
@@ -469,6 +475,9 @@ def run_check(pid, tier="quick", seed=0, workers=None, budget=None, batches=None
                     agg["samples"].extend(out["samples"])
                 agg["harness_errors"].extend(out["harness_errors"])
                 agg["violations"].extend(out["violations"])
+                for kid, cnt in out.get("known", {}).items():
+                    f = next((x for x in known if x["id"] == kid), {"id": kid, "what": kid})
+                    agg["known_hits"].setdefault(kid, {"finding": f, "count": 0})["count"] += cnt
             if _perf() - t0 > cfg["wall"]:
                 stop = True
             if len(agg["violations"]) >= 40:
